@@ -437,17 +437,16 @@ func (i *insertExecutor) getPkValuesByColumn(ctx context.Context, execCtx *types
 	// generate pkValue by auto increment
 	for _, v := range pkValuesMap {
 		tmpV := v
+		generated := false
 		if len(tmpV) == 1 {
 			// pk auto generated while single insert primary key is expression
-			if _, ok := tmpV[0].(*ast.FuncCallExpr); ok {
-				curPkValueMap, err := i.getPkValuesByAuto(ctx, execCtx)
-				if err != nil {
-					return nil, err
-				}
-				pkValuesMapMerge(&pkValuesMap, curPkValueMap)
-			}
-		} else if len(tmpV) > 0 && tmpV[0] == nil {
-			// pk auto generated while column exists and value is null
+			_, generated = tmpV[0].(*ast.FuncCallExpr)
+		}
+		if len(tmpV) > 0 && tmpV[0] == nil {
+			// pk auto generated while column exists and value is null (also in a single-row insert)
+			generated = true
+		}
+		if generated {
 			curPkValueMap, err := i.getPkValuesByAuto(ctx, execCtx)
 			if err != nil {
 				return nil, err
@@ -575,7 +574,8 @@ func pkValuesMapMerge(dest *map[string][]interface{}, src map[string][]interface
 	for k, v := range src {
 		tmpK := k
 		tmpV := v
-		(*dest)[tmpK] = append((*dest)[tmpK], tmpV)
+		// the generated values take the place of what the statement said (NULL, a function call)
+		(*dest)[tmpK] = tmpV
 	}
 }
 
